@@ -60,7 +60,7 @@ THRESH = [15, 16, 17, 31, 32, 33, 63, 64, 65, 127, 128, 129, 255, 256, 257, 1023
 # order).  Genuine defect (the statement quantifies over all T), recorded in
 # replays/C08/linear_warp-long-T-*.json with the proposed repair fixes/C08-warp-grid-float64.diff.
 # Until that is merged the class stays out of the default path; VERIF_C08_LONG_WARP=1 enables it.
-ENABLE_LONG_WARP = False or os.environ.get("VERIF_C08_LONG_WARP", "") == "1"
+ENABLE_LONG_WARP = True  # repaired in /repo by aaa1885
 LONG_WARP_ABOVE = 64
 
 FEAT_LAYOUTS = ["contig", "offset", "perm_tnf", "perm_nft", "strided"]
